@@ -20,7 +20,8 @@ import (
 //     must give the answer of a fresh receiver
 //
 // and the same three for the five extension handlers under every dialect (ops ext / seqext), plus the
-// handlers embedded in T0x0200 through CustomAdditionContentFunc (op extemb, implementation only).
+// handlers embedded in T0x0200 through CustomAdditionContentFunc (op extemb: correspondence with Model/Total_emb.v
+// for 0x64 0x65 0x67 0x70, implementation only for 0x66).
 // Violations: C03/location-panic-*, C03/location-tail-*, C03/location-history-*, C03/ext-*;
 // the pinned 0x66 over-read is the known finding C03/ext66-overread.
 func C03Location(c *Ctx) {
@@ -329,11 +330,20 @@ func ExtEmbedded(kind string, dialect int, body, tail []byte) (ans string) {
 		return ProtoErrCode(err)
 	}
 	_ = h.String()
-	return dump0200(&t) + " handler: " + ExtDump(h)
+	// the handler's members are shown when it accepted an item (otherwise it is as it was created, which prints
+	// differently from the model's empty handler; 0x66 may also have assigned members before it declined)
+	hd := "-"
+	for _, a := range t.Additions {
+		if a.Content.CustomValue != nil {
+			hd = ExtDump(h)
+		}
+	}
+	return dump0200(&t) + " handler: " + hd
 }
 
 func init() {
-	// extemb <kind> <dialect> <body> <tail>   (implementation only)
+	// extemb <kind> <dialect> <body> <tail>   (model: Model/Total_emb.v t0200_emb; correspondence for the handlers
+	// 0x64 0x65 0x67 0x70, implementation only for 0x66, the known finding)
 	RegisterOp("extemb", func(a []string) string { return ExtEmbedded(a[0], atoi(a[1]), Unhx(a[2]), Unhx(a[3])) })
 }
 
@@ -477,18 +487,41 @@ func c03Ext(c *Ctx, tailA, tailB []byte) {
 	for _, k := range kinds {
 		for _, d := range []int{1, 2, 3, 4, 5} {
 			for n := k.ok - 2; n <= k.ok+11; n++ {
-				for _, follow := range [][]byte{nil, {0x30, 1, 7}} {
+				variants := [][]byte{nil, {0x30, 1, 7}}
+				if n == k.ok { // at the accepted length also: standard items in front, the handler's item twice (the
+					// second replaces the first and the handler is parsed twice), an item of another id with the same length
+					variants = append(variants, []byte{0xF1}, []byte{0xF2}, []byte{0xF3}, []byte{0x31, 0})
+				}
+				for _, follow := range variants {
 					content := make([]byte, n)
 					rng.Read(content)
 					if k.name == "66" && n > 40 {
 						content[40] = byte((n - 40) / 9)
 					}
-					body := append(append(append([]byte{}, block...), byte(k.id), byte(n)), content...)
-					body = append(body, follow...)
+					item := append([]byte{byte(k.id), byte(n)}, content...)
+					body := append(append([]byte{}, block...), item...)
+					switch {
+					case len(follow) == 1 && follow[0] == 0xF1:
+						body = append(append(append([]byte{}, block...), 0x01, 4, 0, 0, 0, 9, 0x25, 4, 0xFF, 0xFF, 0xFF, 0xFF), item...)
+					case len(follow) == 1 && follow[0] == 0xF2:
+						second := append([]byte{byte(k.id), byte(n)}, make([]byte, n)...)
+						rng.Read(second[2:])
+						body = append(body, second...)
+					case len(follow) == 1 && follow[0] == 0xF3:
+						other := append([]byte{0xE1, byte(n)}, content...)
+						body = append(append(append([]byte{}, block...), other...), item...)
+					default:
+						body = append(body, follow...)
+					}
 					known := is66Class(k.name, k.id, content)
 					req := fmt.Sprintf("extemb %s %d %s", k.name, d, Hx(body))
-					ans := RunOp(req + " -")
-					c.Eval(req, true)
+					var ans string
+					if k.name != "66" {
+						ans = c.Do(req+" -", true)
+					} else {
+						ans = RunOp(req + " -")
+						c.Eval(req, true)
+					}
 					c.Count("extemb-" + k.name + ":" + firstTok(ans))
 					sig := "C03/extemb-" + k.name
 					if known {
@@ -498,8 +531,14 @@ func c03Ext(c *Ctx, tailA, tailB []byte) {
 						c.Violate(Violation{Signature: sig, What: "T0x0200.Parse with an extension handler panicked", Input: req + " -",
 							Observed: ans, Required: "ok ... or err"})
 					}
-					for _, tail := range [][]byte{tailA, tailB} {
-						if a2 := RunOp(req + " " + Hx(tail)); a2 != ans {
+					for ti, tail := range [][]byte{tailA, tailB} {
+						var a2 string
+						if k.name != "66" && (n+ti)%2 == 0 {
+							a2 = c.Do(req+" "+Hx(tail), true)
+						} else {
+							a2 = RunOp(req + " " + Hx(tail))
+						}
+						if a2 != ans {
 							c.Violate(Violation{Signature: sig, What: "the outcome depends on bytes behind the body", Input: req + " " + Hx(tail),
 								Observed: a2, Required: ans + "   (answer with exact capacity)"})
 						}
